@@ -835,3 +835,37 @@ Lemma cut_resume_silent_former :
                               ESup 0; ELinkDown; EDetect; ELoop; EResumeResp 0 RespOk] in
   sclosed_of (snd r) = [] /\ finals_of (fst r) = [(0, 3)].
 Proof. vm_compute. repeat split. Qed.
+
+(* ------------------------------------------------------------------------------------------ *)
+(* a stream is reported closed WITH AN ERROR only out of a resume: the broker refused it, its exchange
+   was cut, or its request could not be written - never for a stream whose resume was neither *)
+
+Lemma closed_with_error_only_by_resume : forall c e i, In (OStreamClosed i true) (snd (step c e)) ->
+  exists s, find_s i (c_streams c) = Some s /\
+    ((exists r, e = EResumeResp i r /\ s_phase s = SResuming /\
+                (r = RespRefused \/ s_held s <> c_gen c \/ c_wclosed c = true)) \/
+     (e = ESup i /\ s_phase s = SWaitConn /\ c_status c = Connected /\ writable c = false)).
+Proof.
+  intros c e i H.
+  destruct e; try (exfalso; revert H; unf; cbn; dmi; cbn; intuition discriminate).
+  - (* ESup *)
+    revert H. cbn [step]. unfold sup_step.
+    destruct (find_s i0 (c_streams c)) as [s|] eqn:F; [|cbn; tauto].
+    destruct (s_phase s) eqn:P; try (cbn; tauto).
+    destruct (c_status c) eqn:S; [|cbn; tauto|destruct (fix_leak (c_cfg c)); cbn; tauto].
+    destruct (writable c) eqn:W; [cbn; intuition discriminate|].
+    destruct (fix_f19 (c_cfg c)); cbn; [|tauto].
+    intros [H|[]]. inversion H; subst. exists s. split; [exact F|right; auto].
+  - (* EResumeResp *)
+    revert H. cbn [step]. unfold resume_resp_step.
+    destruct (find_s i0 (c_streams c)) as [s|] eqn:F; [|cbn; tauto].
+    destruct (s_phase s) eqn:P; try (cbn; tauto).
+    destruct ((s_held s =? c_gen c) && negb (c_wclosed c)) eqn:X.
+    + destruct (c_up c); [|cbn; tauto]. destruct r; cbn; [intuition discriminate|].
+      intros [H|[H|[]]]; [discriminate|]. inversion H; subst. exists s. split; [exact F|left; exists RespRefused; auto].
+    + destruct (fix_f19 (c_cfg c) && negb (is_closed c)); cbn; [|tauto].
+      intros [H|[]]. inversion H; subst. exists s. split; [exact F|left; exists r].
+      repeat split; auto. right. apply andb_false_iff in X. destruct X as [X|X].
+      * left. apply N.eqb_neq. exact X.
+      * right. apply negb_false_iff. exact X.
+Qed.
